@@ -14,7 +14,7 @@ PROPERTY = 'C14'
 LEVEL = 'exploration'
 RULE = ('trees generated from the reference grammar (per element name and whole scores), built through the API or read by '
         'the parser, then perturbed after construction: attributes set by dot assignment, overwritten, removed with None, '
-        'values changed, xsd_check switched off on random nodes. For each tree: deepcopy; copy and original must serialise '
+        'values changed, children added / removed, the tree or a subtree serialised in between, xsd_check switched off on random nodes. For each tree: deepcopy; copy and original must serialise '
         'to the same text (or both refuse with the same exception class); the original must be unchanged by the copy; '
         'xsd_check must be preserved node by node; then a mutation history (attribute / value / add / remove) on the copy '
         'must not show in the original and vice versa. non-trivial = tree with at least one post-construction '
@@ -43,7 +43,20 @@ def perturb(e, rnd, lib):
         n = rnd.choice(nodes)
         t = lib.xsd_type_name(type(n))
         table = [a for a in ref.attr_table(t) if a[1] is not None and a[0] != 'name'] if t in ref.ALL else []
-        kind = rnd.choice(['set', 'overwrite', 'remove', 'remove', 'value', 'uncheck', 'refused', 'refused', 'toggle-edit'])
+        kind = rnd.choice(['set', 'overwrite', 'remove', 'remove', 'value', 'uncheck', 'refused', 'refused', 'toggle-edit',
+                           'serialise', 'serialise', 'tree-edit', 'tree-edit'])
+        if kind == 'serialise':
+            # the original has been serialised (whole tree or a subtree) before it is copied: the copy is rebuilt from scratch
+            # and must still agree with it
+            r = lib.call((e if rnd.random() < 0.6 else n).to_string)
+            done.append('serialise %s (%s)' % (n.name if r[0] == 'ok' else n.name, 'ok' if r[0] == 'ok' else 'refused'))
+            continue
+        if kind == 'tree-edit':
+            m = mutate_tree(e, rnd, lib)
+            if m:
+                done.append('edit ' + m)
+            nodes = nodes_of(e)
+            continue
         if kind in ('set', 'overwrite', 'remove') and table:
             an, at, req = rnd.choice(table)
             key = an.replace('-', '_')
@@ -159,6 +172,9 @@ def check_tree(e, desc, rnd, lib, viol, c, case):
         sig = {'kind': kind, 'root_type': lib.xsd_type_name(type(e))}
         if extra:
             sig.update(extra)
+        if any(x.startswith(('dot-none ', 'edit remove ')) or (x.startswith('remove ') and '/@' not in x) or
+               (x.startswith('toggle-edit') and ' -' in x) for x in desc):
+            sig['after_child_removal'] = True
         viol.append({'sig': sig, 'case': case, 'detail': dict(detail or {}, perturbations=desc)})
 
     before = outcome(e, lib)
@@ -255,6 +271,28 @@ def run_shard(shard, tier, seed):
             check_tree(e, desc, rnd, lib, viol, c, case)
             if len(samples) < 2 and desc:
                 samples.append({'root': n, 'route': route, 'perturbations': desc})
+            # the same tree once more, systematically: serialised, then a child removed somewhere, then copied
+            if route.startswith('api') and len(el):
+                try:
+                    e2 = docs.build_api(el, lib, check=True, kw_attrs=(route == 'api-kw'))
+                except docs.BuildRefused:
+                    continue
+                if lib.call(e2.to_string)[0] == 'exc':
+                    continue
+                parents = [x for x in nodes_of(e2) if x.get_children(False)]
+                for _try in range(3):
+                    pnode = rnd.choice(parents)
+                    kid = rnd.choice(pnode.get_children(False))
+                    how = rnd.choice(['remove', 'dot-none'])
+                    r = lib.call(pnode.remove, kid) if how == 'remove' else \
+                        lib.call(setattr, pnode, 'xml_' + kid.name.replace('-', '_'), None)
+                    if r[0] == 'ok':
+                        desc2 = ['serialise %s (ok)' % e2.name, '%s %s>%s' % (how, pnode.name, kid.name)]
+                        evals += 1
+                        nontriv += 1
+                        c['serialised_then_child_removed'] += 1
+                        check_tree(e2, desc2, rnd, lib, viol, c, {'text': docs.to_text(el), 'route': route, 'perturbations': desc2})
+                        break
     finally:
         tmp.close()
     return {'evaluations': evals, 'distinct_nontrivial': nontriv, 'violations': viol, 'samples': samples,
